@@ -205,6 +205,18 @@ def xformMgr (w : World) (mi : Nat) (δ : Int) : Except Err World :=
   | none => .error .bad
   | some m => .ok (m.addrs.foldl (fun w a => mutateAt w a δ) w)
 
+/-- `list(lm.items_matching(glob))`: `for k, v in self.items(): if fnmatch(k, glob): yield k, v`.
+`sel` is the set of names `fnmatch` accepts for the glob (library code: a parameter) -/
+def itemsMatching (w : World) (mi : Nat) (sel : List Nat) : List (Nat × Shape) :=
+  (((w.mgrs[mi]?).getD []).filter fun p => sel.contains p.1).map fun p => (p.1, (w.store[p.2]?).getD default)
+
+/-- `lm.n_groups` / `len(lm)` -/
+def nGroups (w : World) (mi : Nat) : Nat := ((w.mgrs[mi]?).getD []).length
+/-- `lm.has_landmarks` -/
+def hasLandmarks (w : World) (mi : Nat) : Bool := nGroups w mi != 0
+/-- `lm.n_dims` -/
+def mgrNDims (w : World) (mi : Nat) : Option Nat := ((w.mgrs[mi]?).getD []).nDims w.store
+
 def newMgr (w : World) : World := { w with mgrs := w.mgrs ++ [[]] }
 def newOwner (w : World) (dim : Nat) : World :=
   { w with mgrs := w.mgrs ++ [[]], owners := w.owners ++ [⟨dim, w.mgrs.length⟩] }
@@ -227,6 +239,8 @@ inductive Op where
   | mutExt (i : Nat) (δ : Int)
   | mutGot (r : MRef) (key : Option Nat) (δ : Int)
   | xform (r : MRef) (δ : Int)
+  | items (r : MRef) (sel : List Nat)
+  | count (r : MRef)
 deriving Repr
 
 inductive Reply where
@@ -235,6 +249,8 @@ inductive Reply where
   | shape (s : Shape)
   | keys (ks : List Nat)
   | idx (i : Nat)
+  | items (l : List (Nat × Shape))
+  | count (n : Nat) (has : Bool) (nd : Option Nat)
 deriving DecidableEq, Repr
 
 def withRef (w : World) (r : MRef) (f : Nat → World × Reply) : World × Reply :=
@@ -269,6 +285,8 @@ def step (w : World) : Op → World × Reply
   | .mutExt i δ => liftW w (mutateExt w i δ)
   | .mutGot r key δ => withRef w r fun mi => liftW w (mutateGot w mi key δ)
   | .xform r δ => withRef w r fun mi => liftW w (xformMgr w mi δ)
+  | .items r sel => withRef w r fun mi => (w, .items (itemsMatching w mi sel))
+  | .count r => withRef w r fun mi => (w, .count (nGroups w mi) (hasLandmarks w mi) (mgrNDims w mi))
 
 def run (w : World) (ops : List Op) : World := ops.foldl (fun w op => (step w op).1) w
 
